@@ -184,6 +184,22 @@ CHECKS["C11"] = dict(
     technique="Lean 4 proof (abstract linear algebra: superposition, symmetric bilinear form => reciprocity) + run triples / reciprocity pairs on the real tools in all eight formulations",
 )
 
+CHECKS["C13"] = dict(
+    category="proof",
+    text=("Lean theorems over Model/PostInt.lean (block selection = toggling flags, group toggles, extensive integral = sum "
+          "over the elements of the selected labels) and the abstract systems of C11: integrals over a union of disjoint "
+          "selections add, the result depends on the selected set only, two selections commute and a double selection is a "
+          "no-op; stored energy = half the sum of terminal value x reaction when no free row carries a source (W = 1/2 sum "
+          "V q) and = half of A.f for zero prescribed values (W = 1/2 int A.J). Tied to the real post-processors by "
+          "selection sequences (blocks, groups, clears, repeats) run through femmcli whose area / energy integrals must be the "
+          "sum over exactly the labels the model leaves selected. Decided on the real tools for all three physics, planar and "
+          "axisymmetric: additivity over random subsets and orders (1e-15), block area / volume vs the drawn regions and "
+          "revolved volumes (1e-15), contour length vs drawn length, electrostatic energy vs half sum V*q (1e-12), "
+          "magnetostatic energy vs half int A.J and coenergy."),
+    design_ref="DESIGN.md section 3, C13",
+    technique="Lean 4 proof (fold additivity, toggle laws, energy identities by the symmetric bilinear form) + selection-sequence correspondence + identities checked on the real post-processors",
+)
+
 NOT_YET = "check not built yet in this round; planned per DESIGN.md section 3 (Lean model + correspondence)"
 
 
